@@ -1428,7 +1428,7 @@ fn get_common_pool_attrs(attrs: &Attrs) -> Result<PoolAttrs, ReadOpError> {
         .get("strides")
         .map(|v| v.cast_ints())
         .transpose()?
-        .unwrap_or_default()
+        .unwrap_or_else(|| vec![1; kernel_size.len()])
         .into();
     Ok(PoolAttrs {
         ceil_mode,
